@@ -468,12 +468,14 @@ func ruleQRFormulas(c *Ctx) {
 		// the loop variable: receiver of totalDataBytes
 		var vi ssa.Value
 		eachInstr(fn, func(b *ssa.BasicBlock, ins ssa.Instruction) {
-			if call, ok := ins.(*ssa.Call); ok && calleeOf(call) != nil && c.P.FuncName(calleeOf(call)) == "qr.(*versionInfo).totalDataBytes" {
-				vi = call.Common().Args[0]
+			if ld, ok := ins.(*ssa.UnOp); ok && ld.Op == token.MUL {
+				if _, isIA := ld.X.(*ssa.IndexAddr); isIA && strings.HasPrefix(NewNormer(c.P).Norm(ld).asAtom(), "global:qr.versionInfos[") {
+					vi = ld
+				}
 			}
 		})
 		if vi == nil {
-			c.Undecided(R5, "qr.findSmallestVersionInfo/row", fn.Pos(), "no totalDataBytes call")
+			c.Undecided(R5, "qr.findSmallestVersionInfo/row", fn.Pos(), "no row of versionInfos is read")
 		} else {
 			// vi must be the element of versionInfos at the range index
 			nn := NewNormer(c.P)
